@@ -235,6 +235,9 @@ pub fn plan(p: u32, tier: &str) -> Vec<Run> {
             let mut newer = noise("S3D2-newer+follow", 2, true, false);
             newer.cmp = Cmp::Newer;
             add(newer, families::slots(3));
+            let mut xe = noise("S3D3-exacteph-E-consumers", 3, false, false);
+            xe.cmp = Cmp::ExactEph;
+            add(xe, slots_matching(3, &["EOO", "EEO", "AEO", "OEO"]));
             let mut pr = noise("S3D2-prod+follow", 2, true, false);
             pr.cmp = Cmp::Prod;
             pr.conv = Conv::Parts;
@@ -970,6 +973,10 @@ pub fn cmd_run(args: &[String]) -> i32 {
             "newer" => {
                 spec.noise = true;
                 spec.cmp = Cmp::Newer;
+            }
+            "exacteph" => {
+                spec.noise = true;
+                spec.cmp = Cmp::ExactEph;
             }
             "twin" => spec.twin = true,
             "misuse" => spec.misuse = true,
